@@ -226,9 +226,6 @@ def alarm_closure_late_binding(src):
 
 
 def alarm_closure_stored_on_object(src):
-    class Box:
-        pass
-
     b = _Box()
     b.f = lambda: src.anchors.clear()
     b.f()
